@@ -9,6 +9,8 @@ import (
 	"go/constant"
 	"go/types"
 	"math/big"
+	"regexp"
+	"strconv"
 	"strings"
 
 	"golang.org/x/tools/go/ssa"
@@ -24,6 +26,7 @@ type FuncResult struct {
 	Notes    []string // imprecision notes (havocs)
 	Assumed  map[string]bool
 	noteSeen map[string]bool
+	covSeen  map[string]bool
 }
 
 func (r *FuncResult) note(s string) {
@@ -87,6 +90,7 @@ type State struct {
 	pendingForks []*State
 	mapWitness []mapWit
 	calleePkgs []string // packages whose code runs in the call being havocked (nil: unknown)
+	epochTop   map[int]string // allocation top when the heap of that epoch came into being (copy on write)
 }
 
 // mapWit: a map entry the path relied on (range step or lookup); used to give
@@ -353,9 +357,62 @@ func (st *State) loadH(h *Heap, addr string, T types.Type) Value {
 
 func (st *State) load(addr string, T types.Type) Value {
 	v := st.loadH(st.heap, addr, T)
+	raw := v.Term
 	v.Term = st.define("ld", v.Term, v.S)
 	st.assumeWF(v)
+	st.assumeBaseAge(raw, v.S)
 	return v
+}
+
+var epochSuffix = regexp.MustCompile(`_e(\d+)$`)
+
+// assumeBaseAge: whatever reference the heap held when it came into being (at entry, or
+// right after a havoc) points to an object that existed then, so it cannot alias anything
+// allocated later. raw is (select ARR addr) with ARR a chain of stores over a base array.
+func (st *State) assumeBaseAge(raw string, s Sort) {
+	if s != SRef && s != SSlice && s != SIface {
+		return
+	}
+	if !strings.HasPrefix(raw, "(select ") {
+		return
+	}
+	a := splitTop(raw[8 : len(raw)-1])
+	if len(a) != 2 {
+		return
+	}
+	arr := a[0]
+	n := 0
+	for strings.HasPrefix(arr, "(store ") {
+		b := splitTop(arr[7 : len(arr)-1])
+		if len(b) != 3 {
+			return
+		}
+		arr = b[0]
+		n++
+	}
+	if strings.ContainsAny(arr, "( ") {
+		return // not a base array
+	}
+	m := epochSuffix.FindStringSubmatch(strings.Trim(arr, "|"))
+	if m == nil {
+		return
+	}
+	ep, _ := strconv.Atoi(m[1])
+	top := st.allocTop0
+	if ep != 0 {
+		top = st.epochTop[ep]
+	}
+	if top == "" || top == st.allocTop {
+		return
+	}
+	r := app("select", arr, a[1])
+	switch s {
+	case SSlice:
+		r = app("s_ref", r)
+	case SIface:
+		r = app("i_ref", r)
+	}
+	st.assume(app("<", app("rid", r), top))
 }
 
 func (st *State) assumeWF(v Value) {
@@ -558,9 +615,21 @@ func (st *State) havocAll(why string) {
 			st.heap.sorts[k] = old.sorts[k]
 		}
 	}
+	st.havocProbes()
+	// ASSUMPTION (listed in the evidence): the other ghost variables stand for operations
+	// (store writes, proposals, alerts, ...) that code without a contract is assumed not to reach
+	if strings.HasPrefix(why, "call") {
+		st.res.Assumed["code called without a contract ("+why+") is assumed not to perform any ghost-tracked operation"] = true
+	}
 	nt := st.fresh("top", SInt)
 	st.assume(app(">=", nt, st.allocTop))
 	st.allocTop = nt
+	et := make(map[int]string, len(st.epochTop)+1)
+	for k, v := range st.epochTop {
+		et[k] = v
+	}
+	et[st.heap.epoch] = nt
+	st.epochTop = et
 }
 
 // ---------------------------------------------------------------------------
